@@ -440,4 +440,9 @@ MUTANTS += [
     #  memoized object with POP + GET - not a mutant)
     dict(id="c15_revert_fix_d26", props=["C15"], edits=[
         (PV, "                if not (\n                    isinstance(j, int)\n                    and 0 <= j < len(verts)\n                    and verts[j] is other\n                ):\n", "                if False:\n")]),
+    dict(id="c13_revert_fix_d27", props=["C13"], edits=[
+        (PV, "            try:\n                # pylint: disable-next=protected-access\n                del vert.__make_pyvis_net_i\n            except AttributeError:\n                pass\n",
+             "            if \"__make_pyvis_net_i\" in vars(vert):\n                del vert.__make_pyvis_net_i\n")]),
+    dict(id="c13_cleanup_only_reached_by_second_loop", props=["C13"], edits=[
+        (PV, "            marked.append(vert)\n", "            if vert.links:\n                marked.append(vert)\n")]),
 ]
